@@ -40,6 +40,7 @@ def _analyses():
     from .analyses import a1_tables as a1
     from .analyses import a2_binding as a2
     from .analyses import a3_shape as a3
+    from .analyses import a3_reduce
     from .analyses import a4_kind as a4
     from .analyses import a5_factor, a5_linear, a7_axis, a8_taint
     from .analyses import kernel_api as ka
@@ -51,14 +52,14 @@ def _analyses():
     thread = lambda c, w: kt.global_effects(c, w, thread=True)
     return {
         "C01": (
-            [a3.vjp, vjp_axis, a2.catchall, a2.variadic, a1.arity, ka.option_domains, a5_factor.agree, ka.arraybox_table],
+            [a3.vjp, a3.helpers, a3_reduce.reductions, vjp_axis, a2.catchall, a2.variadic, a1.arity, ka.option_domains, a5_factor.agree, ka.arraybox_table],
             "Reverse-mode exactness is numerical; decided here are the configuration-dependent plumbing clauses every exact rule needs: "
             "broadcast discipline of VJPs (A3.vjp), negative-axis hazards (A7), keyword/positional binding behind catch-alls (A2.catchall), "
             "variadic offsets (A2.variadic), arity (A1.arity), closed option domains (A6.enum), VJP/JVP factor agreement of elementwise rules (A5) "
             "and the operator/method call forms (A14). Each is a necessary condition: breaking one makes some call configuration silently wrong.",
         ),
         "C02": (
-            [a1.lin, a3.jvp, ka.sibling_guards, jvp_axis, a2.catchall, a1.arity, kc.zero_paths],
+            [a1.lin, a3.jvp, a3.helpers, a3_reduce.reductions, ka.sibling_guards, jvp_axis, a2.catchall, a1.arity, kc.zero_paths],
             "Forward-mode: 'same'/def_linear only on linear (function, argument) pairs (A1.lin: exactly when the primitive applied to the tangent IS the JVP), "
             "output-shaped tangents of broadcasting JVPs (A3.jvp), guard agreement with the VJP twin (A6.sibling), axis hazards (A7) and binding (A2) of JVP makers, "
             "(value, tangent) order and zero tangents of the right space (A13.zero/A2.tuple).",
@@ -74,7 +75,7 @@ def _analyses():
             "factors IS adjointness for all inputs); linearity in g of every rule closure (two-point domain over linear_in facts); 'same' entries only on linear pairs.",
         ),
         "C05": (
-            [a3.vjp, a4.match, kc.zero_paths, a1.types, a2.layout],
+            [a3.vjp, a3.helpers, a3_reduce.reductions, a4.match, kc.zero_paths, a1.types, a2.layout],
             "A gradient lives in its argument's space: shape support under broadcasting (A3.vjp), real/complex kind for every kind assignment of the arguments (A4.match, exhaustive 2^n), "
             "zeros of the argument's / output's space on independent paths (A13.zero), one Box and one VSpace per differentiable type (A1.types), container layout (A2.layout).",
         ),
@@ -110,7 +111,7 @@ def _analyses():
             "indices accumulate (A9.scatter), __getitem__/untake pairing on the same index and the argument's space (A2.repo), both sparse object types registered (A1.types), 'same' JVPs (A1.lin).",
         ),
         "C12": (
-            [a2.layout, a2.variadic, ka.container_boxes, _container_spaces, _flatten_order],
+            [a2.layout, a2.variadic, _dict_keys, ka.container_boxes, _container_spaces, _flatten_order],
             "Containers: offset arithmetic of sequence_extend / make_sequence (A2.layout, A2.variadic), content accessors of SequenceBox/DictBox go through the primitive (A14.containers), "
             "every registered container space resolves its abstract members, flatten destructures make_vjp as (unflatten, flat) and visits dict keys in sorted order.",
         ),
@@ -235,6 +236,31 @@ def _a2_index_pairing(ctx, world):
         else:
             ctx.fail("A2.repo", inst, inst, e.loc, f"the rule does not hand the cotangent, the same index and the indexed argument's space to its partner (found {str(res)[:100]})", "x[idx] with a non-trivial index on an argument whose shape differs from the cotangent's")
     ctx.floor("A2.repo index pairings", n, 4)
+
+
+def _dict_keys(ctx, world):
+    from .analyses.common import construct_of
+    from .kfun import strip_seq
+
+    ctx.describe("A2.dictkeys", "_make_dict(keys, vals): the VJP w.r.t. vals selects the cotangent's entries BY KEY, in the order of `keys` (never by the cotangent dict's own iteration order)")
+    n = 0
+    for e in world.table.entries:
+        if e.prim_id != "autograd.builtins._make_dict" or e.mode != "vjp" or e.spec != "maker":
+            continue
+        n += 1
+        ir = world.ir(e)
+        res = strip_seq(ir.result) if ir and ir.ok else None
+        ok = False
+        if res is not None and res.op == "call" and len(res.args) == 1 and res.args[0].op == "comp":
+            c = res.args[0]
+            el = c.elt
+            ok = c.src.op == "arg" and c.src.index == 0 and el.op == "sub" and el.obj.op == "sym" and el.obj.get("role") == "g" and el.idx.op == "iterelem" and el.idx.src is c.src
+        inst = construct_of(e)
+        if ok:
+            ctx.ob("A2.dictkeys", inst, True, e.loc, sample=str(res)[:80])
+        else:
+            ctx.fail("A2.dictkeys", inst, inst, e.loc, f"the rule does not build [g[key] for key in keys] (found {str(res)[:80]})", "a cotangent dict whose insertion order differs from the constructed dict's: leaf cotangents are permuted across keys")
+    ctx.floor("A2.dictkeys rules", n, 1)
 
 
 def _container_spaces(ctx, world):
